@@ -317,3 +317,41 @@ def engine_composite(tier, seed):
     for d in res['divergences']:
         d['tag'] = 'C10'
     return res
+
+
+READBUF_CFG = """SPECIFICATION Spec
+CONSTANTS
+    C = %d
+    Bytes = {1, 2}
+    Depth = %d
+INVARIANTS
+    WithinCapacity
+    RejectedUnchanged
+    UnownedEmpty
+    ExportCase
+CHECK_DEADLOCK FALSE
+"""
+
+
+def merge_results(engine, parts):
+    res = {'engine': engine, 'tlc': [], 'replays': [], 'divergences': [], 'errors': [], 'samples': [],
+           'cached': all(p.get('cached') for p in parts), 'divergences_total': 0}
+    for p in parts:
+        for k in ('tlc', 'replays', 'divergences', 'errors', 'samples'):
+            res[k] += p[k]
+        res['divergences_total'] += p.get('divergences_total', len(p['divergences']))
+    return res
+
+
+def engine_readbuf(tier, seed):
+    parts = [engine_cases('readbuf_c3', 'MC_ReadBufEdit', READBUF_CFG % (3, 2), 'replay_readbuf', tier, seed,
+                          model='ReadBufEdit', cfg_name='readbuf_c3d2')]
+    if tier == 'thorough':
+        parts.append(engine_cases('readbuf_c4', 'MC_ReadBufEdit', READBUF_CFG % (4, 2), 'replay_readbuf', tier, seed,
+                                  model='ReadBufEdit', cfg_name='readbuf_c4d2', timeout=3000))
+        parts.append(engine_cases('readbuf_c2d3', 'MC_ReadBufEdit', READBUF_CFG % (2, 3), 'replay_readbuf', tier, seed,
+                                  model='ReadBufEdit', cfg_name='readbuf_c2d3', timeout=3000))
+    res = merge_results('readbuf', parts)
+    for d in res['divergences']:
+        d['tag'] = 'C15'
+    return res
